@@ -33,10 +33,16 @@ def replay(path: str, expr: str) -> dict:
     ns.setdefault("nan", float("nan"))
     ns.setdefault("inf", float("inf"))
     out: dict = {"expr": expr}
+    from .cond import HarnessAbort
+
     try:
         r = eval(expr, ns)  # noqa: S307 - the expression is CrossHair's own repr of the call
         out["returned"] = repr(r)
         out["holds"] = bool(r)
+    except HarnessAbort as e:
+        out["returned"] = None
+        out["holds"] = None
+        out["harness_abort"] = str(e)
     except Exception as e:  # noqa: BLE001
         out["returned"] = None
         out["holds"] = False
@@ -46,7 +52,7 @@ def replay(path: str, expr: str) -> dict:
 
 
 def grid(module: str, name: str, tier: str) -> dict:
-    from .cond import conditions_of
+    from .cond import HarnessAbort, conditions_of
 
     mod = importlib.import_module(module)
     c = next(c for c in conditions_of(mod) if c.name == name)
@@ -61,12 +67,16 @@ def grid(module: str, name: str, tier: str) -> dict:
 
     points = list(c.grid()) if c.grid else []
     fails = []
+    abort = None
     sys.setprofile(prof)
     try:
         for pt in points:
             try:
                 ok = bool(c.fn(*pt))
                 exc = None
+            except HarnessAbort as e:
+                abort = f"harness assumption failed at {pt!r}: {e}"
+                break
             except Exception as e:  # noqa: BLE001
                 ok = False
                 exc = f"{type(e).__name__}: {e}"
@@ -75,6 +85,7 @@ def grid(module: str, name: str, tier: str) -> dict:
     finally:
         sys.setprofile(None)
     return {
+        **({"error": abort} if abort else {}),
         "points": len(points),
         "fails": fails,
         "functions": sorted(seen),
